@@ -1,7 +1,7 @@
 package main
 
 // E2: tracking of one error value along the paths on which it has a given kind
-// (non-nil; or "neither nil nor io.EOF nor bufio.ErrBufferFull").
+// (non-nil; or "neither nil nor io.EOF").
 
 import (
 	"go/token"
@@ -14,7 +14,7 @@ type ErrKind int
 
 const (
 	KindNonNil      ErrKind = iota // paths on which the error is not nil
-	KindOtherError                 // paths on which the error is neither nil, io.EOF nor bufio.ErrBufferFull
+	KindOtherError                 // paths on which the error is neither nil nor io.EOF
 	KindSuccess                    // paths on which the error is nil
 )
 
@@ -63,7 +63,9 @@ func (t *ErrTrack) contradicts(f Fact) bool {
 		if f.Op != token.EQL {
 			return false
 		}
-		return isNil(other) || isSentinel(other, "io", "EOF") || isSentinel(other, "bufio", "ErrBufferFull")
+		// bufio.ErrBufferFull is not exempt: the inflater and the container readers only Peek sizes below bufio's
+		// minimum buffer (R11.1, R08.3, R04.5), so that value can only be the source's own error (defect #22)
+		return isNil(other) || isSentinel(other, "io", "EOF")
 	}
 	return false
 }
